@@ -224,6 +224,56 @@ Definition sel_apply3 (g : op3) (a : obj) (args : list obj) : obj :=
   match fst g with SRaw => raw_apply3 g a args | SDec => apply_narop (demote g) a args | SPy => apply_narop g a args end.
 
 (* ---------------------------------------------------------------------- *)
+(* Function.__call__ (functions.py:167): the wrapped function receives the positional arguments
+   truncated to its number of parameters and ONLY the keyword arguments it declares:
+
+     def __call__(self, args.., kwargs..):
+         kwargs = {k: kwargs[k] for k in kwargs.keys() & self._kwords}
+         return self.func(args[:self._nargs].., filtered kwargs..)
+
+   followed by Python's own binding: a parameter takes its positional value, else its keyword, else
+   its default; positional AND keyword for one parameter, or none of the three, is a TypeError.
+   A primitive is `lambda p0, p1=d1, ...: c + k0*p0 + k1*p1 + ...` (parameter names are numbers).
+   Composed functions pass the SAME positional and keyword arguments to every operand function
+   (Unop/Binop/NaropFunction.__call__), so one argument record determines the environment. *)
+Record prim := { p_params : list (nat * option num); p_coef : list num; p_const : num }.
+Definition callargs := (list num * list (nat * num))%type.       (* positional, keywords *)
+
+Fixpoint kw_lookup (n : nat) (kw : list (nat * num)) : option num :=
+  match kw with
+  | [] => None
+  | (m, v) :: r => if Nat.eqb n m then Some v else kw_lookup n r
+  end.
+Definition declares (params : list (nat * option num)) (n : nat) : bool :=
+  existsb (fun p => Nat.eqb n (fst p)) params.
+Fixpoint bind_params (params : list (nat * option num)) (i : nat) (pos : list num) (kw : list (nat * num))
+  : option (list num) :=
+  match params with
+  | [] => Some []
+  | (name, dflt) :: r =>
+      let v := match nth_error pos i, kw_lookup name kw with
+               | Some _, Some _ => None             (* got multiple values for argument *)
+               | Some pv, None => Some pv
+               | None, Some kv => Some kv
+               | None, None => dflt                 (* missing required argument when there is no default *)
+               end in
+      match v, bind_params r (S i) pos kw with
+      | Some x, Some l => Some (x :: l)
+      | _, _ => None
+      end
+  end.
+Definition prim_call (p : prim) (c : callargs) : num :=
+  let pos := firstn (length (p_params p)) (fst c) in                        (* args[:self._nargs] *)
+  let kw := filter (fun e => declares (p_params p) (fst e)) (snd c) in       (* kwargs.keys() & self._kwords *)
+  match bind_params (p_params p) 0 pos kw with
+  | None => NErr
+  | Some vals => fold_left (fun acc kv => nadd acc (nmul (fst kv) (snd kv))) (zip (p_coef p) vals) (p_const p)
+  end.
+(* the environment of one call: every primitive evaluated on the same argument record *)
+Definition env_of (prims : list prim) (c : callargs) : nat -> num :=
+  fun id => match nth_error prims id with Some p => prim_call p c | None => NErr end.
+
+(* ---------------------------------------------------------------------- *)
 (* evaluation of functions at one argument; env id = value of the primitive function id there *)
 Section Eval.
   Variable env : nat -> num.
